@@ -25,7 +25,7 @@ RULE = ('systems x = a*LAG_x + c*LAG_y + b (+ 0.1*t), y = a2*LAG_y + b2 with (a,
         'frozen at k=0 moves every non-excluded variable by <= 2 tol (absolute or relative; violated only if both >= 20 tol), rejection is '
         'NoEquilibriumError/ValueError, Parser lists / exogenous series / MaxTime deep-equal to the snapshot; non-trivial = accepted searches')
 ASSUMPTIONS = [
-    'the within-period block is acyclic, so every step is computed exactly by the sweep and the solver tolerance plays no role',
+    'the within-period block is acyclic, so every step is computed exactly by the sweep and the solver tolerance plays no role; the one cyclic family sets ParameterErrorTolerance = 1e-8, the documented way of asking for per-period accuracy',
     'either the absolute or the relative measure may be used by the implementation (the weaker is demanded)',
     'only variables nothing else depends on are put on the excluded list (an excluded variable is not installed at k=0, so anything reading it is outside the guarantee)',
 ]
@@ -64,6 +64,13 @@ def two_state(a, c, b, x0, a2, b2, y0):
                  lags=[('LAG_x', 'x'), ('LAG_y', 'y')], ics={'x': repr(x0), 'y': repr(y0)}, maxtime=3)
 
 
+def cyclic_state(rho, g, a, x0):
+    """A within-period loop (y feeds itself) next to a lagged state; the caller asks for tight per-period accuracy through
+    ParameterErrorTolerance, so every period - also inside the search - has to be solved to that accuracy."""
+    return Block([('y', '%r*y + %r*g' % (rho, 1 - rho)), ('bal', '-y'), ('x', '%r*LAG_x + 1.' % a)], lags=[('LAG_x', 'x')],
+                 ics={'x': repr(x0)}, exos=[('g', '[%r]*4' % g)], maxtime=3)
+
+
 def snapshot(s):
     p = s.Parser
     return copy.deepcopy({
@@ -75,6 +82,8 @@ def snapshot(s):
 
 def check(block, T, tol, excl_x, case):
     s = EquationSolver(block.text())
+    if case.get('pet') is not None:
+        s.ParameterErrorTolerance = case['pet']
     s.ParameterInitialSteadyStateMaxTime = T
     s.ParameterInitialSteadyStateErrorToler = tol
     if excl_x:
@@ -132,6 +141,7 @@ def check(block, T, tol, excl_x, case):
 def units(tier):
     out = []
     grid = AC if tier == 'quick' else AC_THOROUGH
+    out.append({'part': 'cyclic'})
     for a in list(grid) + [60., -60., 1e200]:
         out.append({'part': 'bare', 'a': a})
         out.append({'part': 'one', 'a': a})
@@ -145,7 +155,12 @@ def run_unit(unit, tier):
     dig = core.Digest()
     b_ = BOUNDS[tier]
     cases = []
-    if unit['part'] == 'bare':
+    if unit['part'] == 'cyclic':
+        for rho, g, a, x0 in itertools.product([.5, .9, .95], [5e4, -5e4, 3.], [0., .5], [0., 5.]):
+            blk = cyclic_state(rho, g, a, x0)
+            for T in (3, 10, 20):
+                cases.append((blk, T, {'sys': 'cyclic', 'rho': rho, 'g': g, 'a': a, 'x0': x0, 'pet': 1e-8}))
+    elif unit['part'] == 'bare':
         for kind, b, x0 in itertools.product(('lin', 'quad'), BS, INITS):
             blk = bare_state(kind, unit['a'], b, x0)
             for T in b_['one_state_horizons']:
@@ -182,7 +197,9 @@ def run_unit(unit, tier):
 
 
 def replay(case):
-    if case['sys'] == 'bare':
+    if case['sys'] == 'cyclic':
+        blk = cyclic_state(case['rho'], case['g'], case['a'], case['x0'])
+    elif case['sys'] == 'bare':
         blk = bare_state(case['kind'], case['a'], case['b'], case['x0'])
     elif case['sys'] == 'one':
         blk = one_state(case['a'], case['b'], case['x0'], case['timedep'], case['shift'])
